@@ -27,7 +27,7 @@ ActionsQuick == {[kind |-> "rot", p |-> 2], [kind |-> "rot", p |-> 3], [kind |->
                  [kind |-> "scale", p |-> 2], [kind |-> "scale", p |-> 3], [kind |-> "vperm", p |-> 0], [kind |-> "eperm", p |-> 1],
                  [kind |-> "lrot", p |-> 1], [kind |-> "lrot", p |-> 2], [kind |-> "flip", p |-> 0]}
 ActionsThorough == ActionsQuick \cup {[kind |-> "rot", p |-> 4], [kind |-> "rot", p |-> 5], [kind |-> "eperm", p |-> 3], [kind |-> "shift", p |-> -2]}
-ActionsShift == {[kind |-> "shift", p |-> 3], [kind |-> "shift", p |-> -2]}
+ActionsShift == {[kind |-> "shift", p |-> 3], [kind |-> "shift", p |-> -2], [kind |-> "shift", p |-> 6]}    \* 6: far apart (quadrature-limited clauses)
 CellsQuick == {{<<0, 0, 0>>, <<1, 0, 0>>}}
 CellsThorough == {{<<0, 0, 0>>, <<1, 0, 0>>}, {<<0, 0, 0>>, <<1, 0, 0>>, <<1, 1, 0>>}, {<<0, 0, 0>>}}
 
